@@ -166,7 +166,7 @@ def main(args):
     r = tlc.run("mc/MC_Iter.tla", cfg="mc/MC_Iter_%s.cfg" % args.tier, workers=16, timeout=3000)
     if r.violation:
         raise tlc.MachineryFailure("protocol model violated: " + r.violation)
-    ck.add_tlc(r)
+    ck.add_tlc(r, "MC_Iter")
     for neg, inv in (("neg_nofinally", "ScopeRestored"), ("neg_reentry", "HistoryFree")):
         rn = tlc.run("mc/MC_Iter.tla", cfg="mc/MC_Iter_%s.cfg" % neg, workers=8, timeout=3000, expect_violation=True)
         if not rn.violation or inv not in rn.violation:
@@ -206,7 +206,7 @@ def main(args):
                      "the real resolver) is not reproduced by the model's RFC 3986 scope computation"})
     elif r.violation:
         raise tlc.MachineryFailure("scenario model violated: " + r.violation)
-    ck.add_tlc(r)
+    ck.add_tlc(r, "MC_IterScen")
     # ---- replay every history on one real validator -----------------------------------------------------------
     vias = {"first": ["is_valid", "validate"], "take": ["close", "drop"], "inscope": ["plain", "raise"], "resolving": ["raise", "plain"]}
     for n, ex in enumerate(r.exports):
